@@ -58,6 +58,15 @@ class UndefVersion(MarkerMixin):
     the metaclass then can check for its presence.
     """
 
+    def __init_subclass__(cls, **kwargs):
+        # independent of the plugin metaclass (which not every plugin group uses):
+        # a class marked with this mixin must not be used as a base class
+        super().__init_subclass__(**kwargs)
+        for b in cls.__bases__:
+            if UndefVersion._is_marked(b):
+                msg = f"{cls.__name__}: Cannot inherit from {UndefVersion._unwrap(b)} of unspecified version!"
+                raise TypeError(msg)
+
     @classmethod
     def _mark_class(cls, c):
         # NOTE: we also want to mark nested non-plugins to prevent subclassing
